@@ -26,6 +26,9 @@ function randomConfig (rng) {
     if (rng.bool(0.1)) e.dst = null
     if (rng.bool(0.25)) e.allowedWithoutCallee = rng.bool(0.8)
     if (rng.bool(0.12)) e.operator = rng.bool(0.7) // operator flag on a method name: enables nothing
+    // an option present with the value null reads as omitted (the rest of the configuration must be honoured all the same)
+    if (rng.bool(0.08)) e.operator = null
+    if (rng.bool(0.08)) e.allowedWithoutCallee = null
     methods.push(e)
   }
   if (rng.bool(0.15) && methods.length) methods.push(Object.assign({}, rng.pick(methods), { dst: 'dupDst' })) // duplicate source, first wins
@@ -36,6 +39,7 @@ function randomConfig (rng) {
   if (rng.bool(0.4)) c.comments = rng.bool()
   if (rng.bool(0.4)) c.literals = rng.bool()
   if (rng.bool(0.5)) c.telemetryVerbosity = rng.pick(['OFF', 'MANDATORY', 'INFORMATION', 'DEBUG', 'debug', 'junk'])
+  for (const k of ['chainSourceMap', 'comments', 'literals', 'telemetryVerbosity', 'localVarPrefix']) if (rng.bool(0.04)) c[k] = null
   if (rng.bool(0.1)) c.unknownField = { x: 1 }
   return c
 }
@@ -121,7 +125,7 @@ async function check (job, resp, prefix, opts = {}) {
     }
   } else if (r.required > 0 && !r.requiredNodes.every(n => n.__req.applyNonLiteralList)) push('enabled-operation-not-instrumented', `file not modified although the configuration enables ${r.required} operation(s) in it`)
   // (e) defaults observed behaviourally
-  const cfgc = job.config || {}
+  const cfgc = Object.fromEntries(Object.entries(job.config || {}).filter(([, v]) => v !== null)) // null reads as omitted
   const ok = resp.ok
   if (cfgc.literals === undefined && (ok.literalsResult === null || ok.literalsResult === undefined)) push('default-literals', 'literals omitted but no literalsResult was produced (default is on)')
   if (cfgc.literals === false && ok.literalsResult) push('literals-off-ignored', 'literals:false but a literalsResult was produced')
